@@ -3,8 +3,10 @@
 // ops:  reset <t32|t64> <slots> <mode> <origin>   node constructed at virtual time <origin>, N2km_ListenOnly,
 //                                                 SetN2kCANMsgBufSize(slots), mode 1 = SetHandleOnlyKnownMessages,
 //                                                 then polled for 700 ms (1 ms steps) so that it is open
+//       sflist <0|1> <pgn>... / fplist <0|1> <pgn>...   application PGN lists (0 = Set...Messages, 1 = Extend...Messages)
 //       t <ms>                                    advance the virtual clock
-//       rx <idhex> <len> <hex>                    one frame from the bus; output = delivered message
+//       rx <idhex> <len> <hex>                    one frame from the bus (fast packet / single frame, or a TP.CM RTS/BAM frame
+//                                                 that opens a TP session slot); output = delivered message
 //                                                 "prio pgn src dst len hex" or "-"
 //       q                                         dump of the reassembly slots
 // Oracle: reference reassembler written from the property statement, keyed by (PGN, source); see refStep(); the slot budget
@@ -12,6 +14,7 @@
 #include "node.h"
 #include "spec_tables.h"   // frozen NMEA 2000 lists: SPEC_FAST_PACKET[], SPEC_SINGLE_FRAME[]
 #include <algorithm>
+#include <list>
 using namespace vh;
 static Ctx C;
 
@@ -24,7 +27,7 @@ struct Node : public MockN2k {
       if (m.FreeMsg) { r += 'F'; continue; }
       snprintf(b, sizeof b, "%lu.%u.%u.%u.%u.%u.%d.%lu", m.N2kMsg.PGN, m.N2kMsg.Source, m.N2kMsg.Destination, m.N2kMsg.Priority,
                m.LastFrame, m.CopiedLen, m.N2kMsg.DataLen, m.N2kMsg.MsgTime);
-      r += b;
+      r += b; if (m.N2kMsg.IsTPMessage()) r += ".T";
     }
     return r;
   }
@@ -48,18 +51,33 @@ static std::string delivStr(const Deliv &d) {
 
 // ------------------------------------------------------------- reference reassembler (from the property statement)
 static bool inTable(const unsigned long *t, size_t n, unsigned long pgn) { for (size_t i = 0; i < n; i++) if (t[i] == pgn) return true; return false; }
+// application-declared lists (documented API: Set...Messages REPLACES the library's default list of that kind,
+// Extend...Messages adds a second list); system and mandatory PGNs are always known
+static bool haveSF[2], haveFP[2]; static std::set<unsigned long> userSF[2], userFP[2];
+static const unsigned long SYS_SF[] = {59392UL, 59904UL, 60160UL, 60416UL, 60928UL};
+static const unsigned long SYS_FP[] = {65240UL, 126208UL, 126464UL, 126996UL, 126998UL};
 static bool specFast(unsigned long pgn) {
-  return inTable(SPEC_FAST_PACKET, sizeof(SPEC_FAST_PACKET) / sizeof(SPEC_FAST_PACKET[0]), pgn) || pgn == 126720UL || (pgn >= 130816UL && pgn <= 131071UL);
+  if (pgn == 0) return false;
+  if (inTable(SYS_FP, 5, pgn)) return true;
+  if (!haveFP[0] && inTable(SPEC_FAST_PACKET, sizeof(SPEC_FAST_PACKET) / sizeof(SPEC_FAST_PACKET[0]), pgn)) return true;
+  if (userFP[0].count(pgn) || userFP[1].count(pgn)) return true;
+  if (userSF[0].count(pgn) || userSF[1].count(pgn)) return false;
+  return pgn == 126720UL || (pgn >= 130816UL && pgn <= 131071UL);
 }
 static bool specKnown(unsigned long pgn) {
-  return inTable(SPEC_FAST_PACKET, sizeof(SPEC_FAST_PACKET) / sizeof(SPEC_FAST_PACKET[0]), pgn) ||
-         inTable(SPEC_SINGLE_FRAME, sizeof(SPEC_SINGLE_FRAME) / sizeof(SPEC_SINGLE_FRAME[0]), pgn);
+  if (pgn == 0) return false;
+  if (inTable(SYS_SF, 5, pgn) || inTable(SYS_FP, 5, pgn)) return true;
+  if (!haveFP[0] && inTable(SPEC_FAST_PACKET, sizeof(SPEC_FAST_PACKET) / sizeof(SPEC_FAST_PACKET[0]), pgn)) return true;
+  if (!haveSF[0] && inTable(SPEC_SINGLE_FRAME, sizeof(SPEC_SINGLE_FRAME) / sizeof(SPEC_SINGLE_FRAME[0]), pgn)) return true;
+  return userFP[0].count(pgn) || userFP[1].count(pgn) || userSF[0].count(pgn) || userSF[1].count(pgn);
 }
 static bool isTPpgn(unsigned long pgn) { return pgn == 60416UL || pgn == 60160UL; }
 
 struct Partial { unsigned prio, dst, seq, next, L; std::vector<unsigned char> bytes; uint64_t t0; /* generator clock at its first frame */ };
 typedef std::pair<unsigned long, unsigned> Key;
 static std::map<Key, Partial> ref;
+// TP sessions opened by TP.CM RTS/BAM (no data packets follow in this harness): they deliver nothing, but each holds a place
+static std::map<std::pair<unsigned, unsigned>, uint64_t> tpHeld;   // (source, destination) -> generator clock of the announce
 // case-level facts about the INPUT (used only to name the failing input class)
 static bool overloaded = false;        // more unfinished messages than slots at some point: only safety is required afterwards
 static bool caseOtherDst = false;      // a first frame superseded an unfinished message of its PGN+source that had another destination
@@ -85,29 +103,49 @@ static void refDecode(unsigned long id, unsigned &prio, unsigned long &pgn, unsi
 }
 
 static void needPlace(const std::map<Key, Partial>::iterator *self) {
-  size_t others = ref.size() - (self ? 1 : 0);
+  size_t others = ref.size() - (self ? 1 : 0) + tpHeld.size();
   if (others + 1 <= nSlots) return;
   if (overloaded) return;
-  // every place is taken by another unfinished message
-  uint64_t oldest = UINT64_MAX; size_t nOldest = 0; bool farApart = false;
-  auto victim = ref.end();
+  // every place is taken by another unfinished message / TP session
+  uint64_t oldest = UINT64_MAX; size_t nOldest = 0; bool farApart = false, victimTP = false;
+  auto victim = ref.end(); auto victimT = tpHeld.end();
   for (auto it = ref.begin(); it != ref.end(); ++it) {
     if (self && it == *self) continue;
     uint64_t t0 = it->second.t0;
     if (g_now - t0 >= 2147483648ULL - 1000) farApart = true;
-    if (t0 < oldest) { oldest = t0; nOldest = 1; victim = it; } else if (t0 == oldest) nOldest++;
+    if (t0 < oldest) { oldest = t0; nOldest = 1; victim = it; victimTP = false; } else if (t0 == oldest) nOldest++;
+  }
+  for (auto it = tpHeld.begin(); it != tpHeld.end(); ++it) {
+    uint64_t t0 = it->second;
+    if (g_now - t0 >= 2147483648ULL - 1000) farApart = true;
+    if (t0 < oldest) { oldest = t0; nOldest = 1; victimT = it; victimTP = true; } else if (t0 == oldest) nOldest++;
   }
   uint64_t age = g_now - oldest;
-  if (!farApart && nOldest == 1 && age >= 101) { ref.erase(victim); C.count("ref_stale_gave_way"); return; }   // > 100 ms idle: does not count
+  if (!farApart && nOldest == 1 && age >= 101) {   // > 100 ms idle: does not count
+    if (victimTP) tpHeld.erase(victimT); else ref.erase(victim);
+    C.count("ref_stale_gave_way"); return;
+  }
   if (age >= 100) C.count("budget_boundary_or_tie_waived");
   overloaded = true;
+}
+
+// TP.CM RTS/BAM: delivers nothing; a new announce replaces the session of the same source and destination; the session
+// holds a place if the announced size is receivable (<= 223) and the transported PGN passes the known-message gate
+static void refTPOpen(unsigned src, unsigned dst, const unsigned char *b) {
+  unsigned long tpgn = (unsigned long)b[5] | ((unsigned long)b[6] << 8) | ((unsigned long)b[7] << 16);
+  unsigned nBytes = (unsigned)b[1] | ((unsigned)b[2] << 8);
+  tpHeld.erase(std::make_pair(src, dst));
+  needPlace(nullptr);
+  if (nBytes <= 223 && (mode != 1 || specKnown(tpgn))) tpHeld[std::make_pair(src, dst)] = g_now;
+  C.count("ref_tp_open");
 }
 
 // b = the 8 bytes the receiver sees, len = DLC
 static RefOut refStep(unsigned long id, unsigned len, const unsigned char *b) {
   RefOut o; o.deliv = false; o.oversize = false;
   unsigned prio, src, dst; unsigned long pgn; refDecode(id, prio, pgn, src, dst);
-  if (isTPpgn(pgn)) return o;                       // ISO-TP: not a fast-packet frame handled here (C10)
+  if (pgn == 60416UL && (b[0] == 16 || b[0] == 32)) { refTPOpen(src, dst, b); return o; }   // TP session announce
+  if (isTPpgn(pgn)) return o;                       // other ISO-TP frames: never generated here (C10)
   if (mode == 1 && !specKnown(pgn)) return o;       // node handles only known messages
   Key k(pgn, src);
   if (!specFast(pgn)) {                             // single frame: delivered with the DLC as length
@@ -168,6 +206,7 @@ static void oracle(const RefOut &r, unsigned long id) {
 }
 
 // ------------------------------------------------------------------------------------------------ exec
+static std::list<std::vector<unsigned long>> keep;   // storage of the PGN lists handed to the library
 static std::string caseDesc;
 static void endCase() {
   if (!N) return;
@@ -187,7 +226,8 @@ static void exec(const std::string &line) {
     nSlots = (unsigned)strtoul(w[2].c_str(), 0, 10); mode = atoi(w[3].c_str());
     uint64_t origin = strtoull(w[4].c_str(), 0, 10);
     g_now = origin;
-    delete N; N = new Node();
+    delete N; N = new Node(); keep.clear();
+    for (int g = 0; g < 2; g++) { haveSF[g] = haveFP[g] = false; userSF[g].clear(); userFP[g].clear(); }
     N->SetMode(tNMEA2000::N2km_ListenOnly);
     N->EnableForward(false);
     N->SetN2kCANMsgBufSize((uint8_t)nSlots);
@@ -197,7 +237,7 @@ static void exec(const std::string &line) {
     if (!N->isOpen()) C.fail("harness:not-open", "node did not open");
     if (nSlots == 0) nSlots = 5;
     if (N->slots() != nSlots) C.fail("harness:slots", "MaxN2kCANMsgs=%u wanted %u", N->slots(), nSlots);
-    ref.clear(); overloaded = caseOtherDst = caseSupersede = false; caseDeliv = caseFPDeliv = caseInterleaved = caseDiscard = caseFrames = 0;
+    ref.clear(); tpHeld.clear(); overloaded = caseOtherDst = caseSupersede = false; caseDeliv = caseFPDeliv = caseInterleaved = caseDiscard = caseFrames = 0;
     got.clear();
     C.out("ok"); return;
   }
@@ -205,6 +245,16 @@ static void exec(const std::string &line) {
   if (!N) { C.out("bad-op"); return; }
   if (w[0] == "t" && w.size() == 2) { g_now += strtoull(w[1].c_str(), 0, 10); C.out("ok"); return; }
   if (w[0] == "q" && w.size() == 1) { C.outs(N->dump()); return; }
+  if ((w[0] == "sflist" || w[0] == "fplist") && w.size() >= 2 && (w[1] == "0" || w[1] == "1")) {
+    int g = w[1] == "1"; keep.emplace_back();
+    for (size_t i = 2; i < w.size(); i++) keep.back().push_back(strtoul(w[i].c_str(), 0, 10));
+    keep.back().push_back(0);
+    const unsigned long *p = keep.back().data(); bool sf = w[0] == "sflist";
+    if (sf) { if (g) N->ExtendSingleFrameMessages(p); else N->SetSingleFrameMessages(p); haveSF[g] = true; userSF[g].clear(); }
+    else { if (g) N->ExtendFastPacketMessages(p); else N->SetFastPacketMessages(p); haveFP[g] = true; userFP[g].clear(); }
+    for (size_t i = 2; i < w.size(); i++) (sf ? userSF[g] : userFP[g]).insert(strtoul(w[i].c_str(), 0, 10));
+    C.out("ok"); return;
+  }
   if (w[0] == "rx" && w.size() == 4) {
     unsigned long id = strtoul(w[1].c_str(), 0, 16); unsigned len = (unsigned)strtoul(w[2].c_str(), 0, 10);
     std::vector<unsigned char> by = unhex(w[3]);
